@@ -594,6 +594,65 @@ def toTChanges (cs : List Change) : List TChange :=
   ((removedPaths cs).filter (fun p => !inst.contains p)).map (fun p => (p, none)) ++
     (addedEntries cs).map (fun e => (e.path, some ⟨e.mode, e.id⟩))
 
+/-! ### RenameDetector as a long-lived object: explicit per-call state
+
+`changes_with_renames` is a fixed pipeline of phases over the attributes `_adds`, `_deletes`, `_changes`, `_candidates`,
+`_want_unchanged`, `_include_trees`.  What each phase computes (similarity scores, thresholds, the `max_files` cut-off,
+copy detection) is a PARAMETER (`DetPhases`, uninterpreted); what the model fixes is the data flow: which attributes a
+phase reads and which it (re)assigns, and on which branch.  An attribute that the translator's definite-assignment
+analysis finds readable before it is (re)assigned in the call (`Gen.detStaleReads`) keeps, at that read, the value the
+PREVIOUS call left in the object — that is how a reused detector could depend on its history. -/
+
+structure DetState where
+  adds : List Change := []
+  deletes : List Change := []
+  changes : List Change := []
+  candidates : List (Int × Change) := []
+  wantUnchanged : Bool := false
+  includeTrees : Bool := false
+
+/-- the state of a freshly constructed detector -/
+def DetState.init : DetState := {}
+
+/-- the uninterpreted content of the phases, for one tree pair and one set of constructor options -/
+structure DetPhases where
+  /-- `_collect_changes`: tree_changes + `_add_change`, appended to the three lists -/
+  collect : Bool → Bool → List Change × List Change × List Change → List Change × List Change × List Change
+  /-- `_find_exact_renames` (+ `_prune`) -/
+  exact : List Change × List Change × List Change → List Change × List Change × List Change
+  /-- `_should_find_content_renames`: false = the `max_files` cut-off trips -/
+  shouldFind : List Change → List Change → Bool
+  /-- the scoring loop of `_find_content_rename_candidates` -/
+  score : List Change → List Change → List (Int × Change)
+  /-- `_choose_content_renames` (+ `_prune`) -/
+  choose : List (Int × Change) → List Change × List Change × List Change → List Change × List Change × List Change
+  /-- `_join_modifies` -/
+  join : List Change × List Change × List Change → List Change × List Change × List Change
+  /-- `_prune_unchanged` -/
+  pruneUnchanged : Bool → List Change → List Change
+  /-- `_sorted_changes` -/
+  sorted : List Change → List Change → List Change → List Change
+
+def detStale (attr : String) : Bool := Gen.TreeOps.detStaleReads.contains attr
+
+/-- `RenameDetector.changes_with_renames(tree1, tree2, want_unchanged, include_trees)` on an object in state `st`:
+the returned change list and the state the object is left in -/
+def detRun (P : DetPhases) (wantUnchanged includeTrees : Bool) (st : DetState) : List Change × DetState :=
+  -- _reset(); self._want_unchanged = …; self._include_trees = …
+  let adds0 := if detStale "_adds" then st.adds else []
+  let dels0 := if detStale "_deletes" then st.deletes else []
+  let chgs0 := if detStale "_changes" then st.changes else []
+  let wu := if detStale "_want_unchanged" then st.wantUnchanged else wantUnchanged
+  let inc := if detStale "_include_trees" then st.includeTrees else includeTrees
+  let s1 := P.exact (P.collect wu inc (adds0, dels0, chgs0))
+  -- _find_content_rename_candidates: `candidates = self._candidates = []`, then the cut-off, then the scoring loop
+  let cands := if P.shouldFind s1.1 s1.2.1 then P.score s1.1 s1.2.1
+               else (if detStale "_candidates" then st.candidates else [])
+  let s2 := P.join (P.choose cands s1)
+  let dels := P.pruneUnchanged wu s2.2.1
+  (P.sorted s2.1 dels s2.2.2, { adds := s2.1, deletes := dels, changes := s2.2.2, candidates := cands,
+                                 wantUnchanged := wu, includeTrees := inc })
+
 /-! ### SHA-1 (execution only; validated against hashlib by the harness; nothing is proved about it) -/
 
 namespace Sha1
